@@ -356,7 +356,7 @@ class CheckPlugin(GenPlugin):
     def ev_List(self, eng, e, st):
         if len(e.elts) != 1: return NotImplemented
         s, v = eng.ev1(e.elts[0], st)
-        Lv = fresh('one', LT); s.assume(And(ln(Lv) == 1, at(Lv, 0) == v.e, nodup(Lv), ForAll([x], mem(Lv, x) == (x == v.e), patterns=[mem(Lv, x)])))
+        Lv = fresh('one', LT); s.assume(And(Lv == one_of(v.e), ln(Lv) == 1, at(Lv, 0) == v.e, nodup(Lv), ForAll([x], mem(Lv, x) == (x == v.e), patterns=[mem(Lv, x)])))
         return [(s, V(Lv, LT))]
 
     def binop(self, eng, st, k, l_, r, line):
@@ -421,3 +421,64 @@ def wbs_tasks_unit():
 
 
 UNITS += [wbs_tasks_unit()]
+
+
+# ================================================================================================ helpers of the id test: _find_root, _collect_subtree
+def find_root_unit():
+    """_find_root(task): climbs the PUBLIC parents; for a task outside every WBS (no hidden root above it) that is the root of its tree"""
+    def build():
+        hc = lambda c: H(c.eng, c.st)
+
+        def no_hidden_above(h, t):          # a detached task has no hidden WBS root among its ancestors (W1 + WR), so the public parent is the parent
+            return ForAll([x], Implies(Or(x == t, Desc(h.par, x, t)), And(h.tid[x] != EMPTY, Implies(h.par[x] != null, h.tid[h.par[x]] != EMPTY))))
+
+        def c_rec(eng, st, recv, args, kws, node):
+            h = H(eng, st); t = args[0].e; me = st.env['task'].e
+            st.oblige('req@_find_root/task-non-null-outside-every-WBS', And(t != null, no_hidden_above(h, t)), f'@{node.lineno}')
+            st.oblige('dec/C14/depth-decreases-at-the-recursive-call', And(dep(h.par, t) < dep(h.par, me), dep(h.par, t) >= 0), f'@{node.lineno}')
+            r = fresh('root', T); st.assume(r == rootof(h.par, t))
+            return [(st, V(r, T))]
+        fc = {'sig': {'task': T}, 'requires': [('acyclic', lambda c: And(Acyc(hc(c).par), hc(c).par[null] == null)), ('task-non-null-outside-every-WBS', lambda c: And(c['task'] != null, no_hidden_above(hc(c), c['task'])))],
+              'ensures': [('C05/result-is-the-root-of-the-tree-of-the-task', lambda c: c.result.e == rootof(hc(c).par, c['task'])), ('C16/reads-only', same_heap)]}
+        return Engine(F, '_find_root', {'fn:_find_root': c_rec, 'prop:Task.parent': c_pubparent}, TASK_CLASSES, fc, plugins=[GenPlugin()]), LIST_AX + GRAPH_AX + ROOT_AX + MEASURE_AX
+    return Unit('_find_root', F, build, ['C05', 'C14'], timeout_ms=15000)
+
+
+def collect_subtree_unit():
+    """_collect_subtree(task): the task and its descendants, each once (the order - depth first - is not needed by its only caller, the id test)"""
+    def build():
+        hc = lambda c: H(c.eng, c.st)
+
+        def post(h, t, R):
+            return {'C05/lists-exactly-the-task-and-its-descendants': ForAll([x], mem(R, x) == insub(h.par, t, x), patterns=[mem(R, x)]),
+                    'C05/lists-every-task-once': nodup(R)}
+
+        def c_rec(eng, st, recv, args, kws, node):
+            h = H(eng, st); t = args[0].e; me = st.env['task'].e
+            st.oblige('req@_collect_subtree/task-non-null', t != null, f'@{node.lineno}')
+            st.oblige('req@_collect_subtree/forest', forest_struct(h, t), f'@{node.lineno}'); st.assume(WFH(h.par, h.chl, h.elems))
+            st.oblige('dec/C14/height-decreases-at-the-recursive-call', And(hgt(h.par, t) < hgt(h.par, me), hgt(h.par, t) >= 0), f'@{node.lineno}')
+            R = fresh('sub', LT)
+            for g in post(h, t, R).values(): st.assume(g)
+            return [(st, V(R, LT))]
+
+        def inv(c):
+            h = hc(c); t = c['task']; C = h.ch(t); i = c['_i0']; res = c['res']
+            return {'frame': And(same_heap(c), i >= 0, i <= ln(C)),
+                    'members-so-far': ForAll([x], mem(res, x) == Or(x == t, And(Desc(h.par, t, x), idx(C, kid(h.par, t, x)) < i)), patterns=[mem(res, x)]),
+                    'no-task-twice': nodup(res)}
+        IL = ['frame', 'members-so-far', 'no-task-twice']
+        LAB = ['C05/lists-exactly-the-task-and-its-descendants', 'C05/lists-every-task-once']
+        fc = {'sig': {'task': T}, 'locals': {'res': LT},
+              'requires': [('task-non-null', lambda c: c['task'] != null), ('forest', lambda c: forest_pre(hc(c), c['task']))],
+              'loops': {0: {'fingerprint': 'for ch in task.children', 'invariant': [(l_, (lambda l_: lambda c: inv(c)[l_])(l_)) for l_ in IL]}},
+              'ensures': [(l_, (lambda l_: lambda c: post(hc(c), c['task'], c.result.e)[l_])(l_)) for l_ in LAB] + [('C16/reads-only', same_heap)]}
+        c_kids = lambda eng, st, recv, a, k, n: [(st, V(H(eng, st).chl[recv.e], LR))]
+        return Engine(F, '_collect_subtree', {'fn:_collect_subtree': c_rec, 'prop:Task.children': c_kids}, TASK_CLASSES, fc, plugins=[CheckPlugin()]), \
+            LIST_AX + LIST_CAT_AX + GRAPH_AX + KID_AX + DFS_AX + MEASURE_AX + ONE_AX
+    return Unit('_collect_subtree', F, build, ['C05', 'C14'], timeout_ms=15000)
+
+
+one_of = Function('one_of', T.z, LT.z)          # the one-element list [t]
+ONE_AX = [ForAll([x], And(ln(one_of(x)) == 1, at(one_of(x), 0) == x, nodup(one_of(x))), patterns=[one_of(x)]), ForAll([x, y], mem(one_of(x), y) == (y == x), patterns=[mem(one_of(x), y)])]
+UNITS += [find_root_unit(), collect_subtree_unit()]
